@@ -79,6 +79,12 @@ func (r *Rollback) Run(name string) error {
 
 	slog.Debug("performing rollback", "name", name)
 	if _, err := r.performRollback(currentRelease, targetRelease); err != nil {
+		// Do not leave the new revision pending: that would block every later
+		// upgrade or rollback with "another operation is in progress".
+		if !r.DryRun && targetRelease.Info.Status == release.StatusPendingRollback {
+			targetRelease.SetStatus(release.StatusFailed, fmt.Sprintf("Rollback %q failed: %s", name, err))
+			r.cfg.recordRelease(targetRelease)
+		}
 		return err
 	}
 
